@@ -114,6 +114,9 @@ func Map(page mm.Page, frame mm.Frame, flags PageTableEntryFlag) *kernel.Error {
 // mapping and returns back the Page that corresponds to the region start.
 func MapRegion(frame mm.Frame, size uintptr, flags PageTableEntryFlag) (mm.Page, *kernel.Error) {
 	// Reserve next free block in the address space
+	if size+(mm.PageSize-1) < size {
+		return 0, errEarlyReserveNoSpace
+	}
 	size = (size + (mm.PageSize - 1)) & ^(mm.PageSize - 1)
 	startPage, err := earlyReserveRegionFn(size)
 	if err != nil {
@@ -136,6 +139,9 @@ func MapRegion(frame mm.Frame, size uintptr, flags PageTableEntryFlag) (mm.Page,
 // IdentityMapRegion returns back the Page that corresponds to the region
 // start.
 func IdentityMapRegion(startFrame mm.Frame, size uintptr, flags PageTableEntryFlag) (mm.Page, *kernel.Error) {
+	if size+(mm.PageSize-1) < size {
+		return 0, errEarlyReserveNoSpace
+	}
 	startPage := mm.Page(startFrame)
 	pageCount := mm.Page(((size + (mm.PageSize - 1)) & ^(mm.PageSize - 1)) >> mm.PageShift)
 
